@@ -102,7 +102,7 @@ def main(argv: List[str]) -> int:
                 if rc != 0:
                     ok = ok and pl != "python"
                     err = [l for l in log.splitlines() if "Error" in l or "error" in l][-1:] or [log[-200:]]
-                    run.violation(f"evolve:{'+'.join(edits) or 'identity'}:{pl}:exit", f"{pl} plugin fails on the evolved model {mname} ({edits}): {err[0][:200]}", {"model": mname, "edits": edits, "seed": seed, "plugin": pl, "exit": rc, "log": log[-1500:], "replay": f"oracle.evolve.evolve(lsp.json, {edits}, {seed}) -> python -m generator --model <evolved> --plugin {pl}"}, True)
+                    run.violation(f"evolve:{pl}:exit:{mname if mname == 'identity' else '+'.join(edits)}", f"{pl} plugin fails on the evolved model {mname} ({edits}): {err[0][:200]}", {"model": mname, "edits": edits, "seed": seed, "plugin": pl, "exit": rc, "log": log[-1500:], "replay": f"oracle.evolve.evolve(lsp.json, {edits}, {seed}) -> python -m generator --model <evolved> --plugin {pl}"}, True)
             lib = os.path.join(ov, "packages", "rust", "lsprotocol", "src", "lib.rs")
             if os.path.exists(lib):
                 fm = subprocess.run([gen.RUSTFMT, "--edition", "2021", lib], capture_output=True, text=True)
